@@ -84,8 +84,14 @@ def gen_graph(rng):
             opts.append(("--on-%s-sw" % onm, nm, "on:sw_" + onm.replace("-", "_")))
             opts.append(("--off-%s-sw" % onm, nm, "off:sw_" + onm.replace("-", "_")))
     opts.append(("--g-0", None, True))
-    return dict(names=names, internal=sorted(internal), parents=parents, cmds=cmds, real=real, dflt=dflt, opts=opts,
-                flags={'_help_if_no_args': rng.random() < 0.3, '_no_log_file': rng.random() < 0.3})
+    flags = {'_help_if_no_args': rng.random() < 0.3, '_no_log_file': rng.random() < 0.3}
+    if rng.random() < 0.2:
+        # the application does its own logging: the standard verbosity option is switched off and its names are free
+        # for an option of the application
+        flags['_no_log'] = True
+        opts.append(("--verbose", rng.choice(names + [None]), True))
+    return dict(flags=flags, names=names, internal=sorted(internal), parents=parents, cmds=cmds, real=real, dflt=dflt, opts=opts,
+                )
 
 
 def ancestors(g):
@@ -241,6 +247,8 @@ def judge(ctx, g, case):
                 problems.append(("parse-raises", {"argv": bad, "type": type(err).__name__}))
         for std, want in ((["--color"], None), (["--no-color"], False), (["-v"], None),
                           (["--color=never", "-vv"], None), (["--color", "always"], None)):
+            if g.get('flags', {}).get('_no_log') and any(x.startswith("-v") for x in std):
+                continue        # (no standard verbosity option in this parser)
             ctx.count("std_option_vectors")
             try:
                 with contextlib.redirect_stderr(io.StringIO()), contextlib.redirect_stdout(io.StringIO()):
